@@ -125,6 +125,39 @@ def extract_ascii():
     return True, int(ms[0]), cmp_[0] == "<", int(rng[0][0], 0), int(rng[0][1], 0)
 
 
+def extract_shape():
+    r"""ShapeFormatter::Format (src/rime/gear/shape.cc), read statement by statement: the option test, the all_of test
+    `ch < A || ch > B`, the space case `ch == SP` with its literal, the range `ch > LO && ch <= HI`, `ch -= SUB` and the
+    three bytes `'\xL' << char('\xM' + ch / D) << char('\xT' + ch % R)`, every other char copied.
+    -> (recognised, dict of numbers)"""
+    zero = dict(a=0, b=0, sp=0, space=[], lo=0, hi=0, sub=0, lead=0, mid=0, div=1, tail=0, rem=1)
+    try:
+        src = _strip_comments(open(os.path.join(vlib.REPO, "src", "rime", "gear", "shape.cc")).read())
+    except OSError:
+        return False, zero
+    body = _body(src, r"void\s+ShapeFormatter::Format\s*\(\s*string\s*\*\s*text\s*\)\s*\{")
+    if body is None:
+        return False, zero
+    flat = " ".join(body.split())
+    num = r"(0x[0-9a-fA-F]+|\d+)"
+    hexc = r"'\\x([0-9a-fA-F]{2})'"
+    pat = (r'^if \(!engine_->context\(\)->get_option\("full_shape"\)\) \{ return; \} '
+           r'if \(std::all_of\(text->cbegin\(\), text->cend\(\), \[\]\(auto ch\) \{ return \(ch < ' + num + r' \|\| ch > ' + num + r'\); \}\)\) \{ return; \} '
+           r'std::ostringstream oss; for \(char ch : \*text\) \{ '
+           r'if \(ch == ' + num + r'\) \{ oss << "((?:\\x[0-9a-fA-F]{2})+)"; \} '
+           r'else if \(ch > ' + num + r' && ch <= ' + num + r'\) \{ ch -= ' + num + r'; '
+           r'oss << ' + hexc + r' << char\(' + hexc + r' \+ ch / ' + num + r'\) << char\(' + hexc + r' \+ ch % ' + num + r'\); \} '
+           r'else \{ oss << ch; \} \} \*text = oss\.str\(\);$')
+    m = re.match(pat, flat)
+    if not m:
+        return False, zero
+    g = m.groups()
+    space = [int(x, 16) for x in re.findall(r"\\x([0-9a-fA-F]{2})", g[3])]
+    return True, dict(a=int(g[0], 0), b=int(g[1], 0), sp=int(g[2], 0), space=space, lo=int(g[4], 0), hi=int(g[5], 0),
+                      sub=int(g[6], 0), lead=int(g[7], 16), mid=int(g[8], 16), div=int(g[9], 0), tail=int(g[10], 16),
+                      rem=int(g[11], 0))
+
+
 def generate():
     guard, flat = extract()
     hguard, hflat = extract_hist()
@@ -146,7 +179,23 @@ def generate():
             "Definition ascii_toggle_window_ms : N := %d%%N." % ams,
             "Definition ascii_window_strict : bool := %s." % ("true" if astrict else "false"),
             "Definition ascii_push_lo : Z := %d%%Z." % alo,
-            "Definition ascii_push_hi : Z := %d%%Z." % ahi, ""]
+            "Definition ascii_push_hi : Z := %d%%Z." % ahi]
+    sok, sh = extract_shape()
+    out += ["(* ShapeFormatter::Format: all_of (ch < a || ch > b) keeps the text; ch == sp -> space bytes; lo < ch <= hi -> ch -= sub;",
+            "   lead, mid + ch / div, tail + ch % rem; any other char copied ([char] taken as signed) *)",
+            "Definition shape_facts_recognised : bool := %s." % ("true" if sok else "false"),
+            "Definition shape_keep_below : Z := %d%%Z." % sh["a"],
+            "Definition shape_keep_above : Z := %d%%Z." % sh["b"],
+            "Definition shape_space_char : Z := %d%%Z." % sh["sp"],
+            "Definition shape_space_bytes : list N := %s." % ("".join("cons %d%%N (" % x for x in sh["space"]) + "nil" + ")" * len(sh["space"])),
+            "Definition shape_wide_above : Z := %d%%Z." % sh["lo"],
+            "Definition shape_wide_upto : Z := %d%%Z." % sh["hi"],
+            "Definition shape_wide_sub : Z := %d%%Z." % sh["sub"],
+            "Definition shape_wide_lead : N := %d%%N." % sh["lead"],
+            "Definition shape_wide_mid : Z := %d%%Z." % sh["mid"],
+            "Definition shape_wide_div : Z := %d%%Z." % sh["div"],
+            "Definition shape_wide_tail : Z := %d%%Z." % sh["tail"],
+            "Definition shape_wide_rem : Z := %d%%Z." % sh["rem"], ""]
     vlib.write_if_changed(os.path.join(vlib.COQ, "Gen", "EngFacts.v"), "\n".join(out))
     return guard, flat
 
